@@ -424,7 +424,7 @@ def _run_hex(case):
     from mesa.space import HexMultiGrid, HexSingleGrid
 
     model = mesa.Model(seed=1)
-    cls = {"HexSingleGrid": HexSingleGrid, "HexMultiGrid": HexMultiGrid}[case["cls"]]
+    cls = _user_subclass({"HexSingleGrid": HexSingleGrid, "HexMultiGrid": HexMultiGrid}[case["cls"]], case)
     w, h, torus = case["w"], case["h"], case["torus"]
     with warnings.catch_warnings():
         warnings.simplefilter("ignore")
@@ -542,12 +542,35 @@ def _run_net(case):
 
 
 _FALSY = {}
+_SUBCLS = {}
+
+
+def _user_subclass(base, case):
+    """every third history runs on a user subclass of the grid class (a docstring-only subclass, and one with
+    an extra constructor argument and __slots__-free attributes): the statement is about the grid classes
+    as they are meant to be used, i.e. also subclassed"""
+    k = (case["w"] + 2 * case["h"] + len(case["ops"])) % 6
+    if k not in (0, 3):
+        return base
+    key = (base, k)
+    if key not in _SUBCLS:
+        if k == 0:
+            _SUBCLS[key] = type("My" + base.__name__, (base,), {"__doc__": "user subclass"})
+        else:
+            def __init__(self, width, height, torus, label="world"):
+                base.__init__(self, width, height, torus)
+                self.label = label
+
+            _SUBCLS[key] = type("Labelled" + base.__name__, (base,), {"__init__": __init__})
+    return _SUBCLS[key]
 
 
 def _agent(model, aid):
-    """a plain Agent for odd ids; for even ids an agent whose truth value is False (a container-style agent
-    with __len__ == 0 / a cell automaton with __bool__ = alive): the statement says 'exactly the agents
-    occupying those cells', whatever their truth value"""
+    """a plain Agent for most odd ids; otherwise user subclasses that are legitimate but unusual: agents whose truth
+    value is False (a container-style agent with __len__ == 0 / a cell automaton with __bool__ = alive), agents that are
+    iterable (a group agent iterating over its members, which stand anywhere on the grid / an empty group) or
+    sequence-like (__getitem__ + __len__): the statement says 'exactly the agents occupying those cells',
+    whatever else the agent objects are"""
     import mesa
 
     if not _FALSY:
@@ -559,9 +582,29 @@ def _agent(model, aid):
             def __bool__(self):
                 return False
 
-        _FALSY["h"], _FALSY["d"] = Household, Dead
-    cls = mesa.Agent if aid % 2 else (_FALSY["h"] if aid % 4 == 0 else _FALSY["d"])
-    return cls(model)
+        class Group(mesa.Agent):
+            def __iter__(self):
+                return iter([a for a in getattr(self.model, "_verif_members", []) if a is not self])
+
+        class EmptyGroup(mesa.Agent):
+            def __iter__(self):
+                return iter(())
+
+        class Seq(mesa.Agent):
+            def __len__(self):
+                return 0
+
+            def __getitem__(self, i):
+                raise IndexError(i)
+
+        _FALSY.update(h=Household, d=Dead, g=Group, e=EmptyGroup, s=Seq)
+    k = aid % 8
+    cls = {0: _FALSY["h"], 2: _FALSY["d"], 3: _FALSY["g"], 4: _FALSY["s"], 6: _FALSY["e"]}.get(k, mesa.Agent)
+    a = cls(model)
+    if not hasattr(model, "_verif_members"):
+        model._verif_members = []
+    model._verif_members.append(a)
+    return a
 
 
 def run_impl(case):
@@ -573,7 +616,7 @@ def run_impl(case):
     from mesa.space import MultiGrid, SingleGrid
 
     model = mesa.Model(seed=1)
-    cls = {"SingleGrid": SingleGrid, "MultiGrid": MultiGrid}[case["cls"]]
+    cls = _user_subclass({"SingleGrid": SingleGrid, "MultiGrid": MultiGrid}[case["cls"]], case)
     import warnings
 
     with warnings.catch_warnings():
@@ -635,7 +678,10 @@ def run_impl(case):
             elif kind == "contents":
                 cl = [tuple(c) for c in op[1]]
                 form = op[2] if len(op) > 2 else "list"
-                got = [a._verif_id for a in g.get_cell_list_contents(_as_form(cl, form))]
+                if i % 2:
+                    got = [a._verif_id for a in g.get_cell_list_contents(_as_form(cl, form))]
+                else:   # the iterator form is the primitive the list form wraps
+                    got = [a._verif_id for a in g.iter_cell_list_contents(_as_form(cl, form))]
                 obs.append(_obs_agents(got))
                 expa = sorted(a for c in cl for a in where.get(c, []))
                 if sorted(got) != expa:
